@@ -245,6 +245,35 @@ def ask_batched(drv, reqs, limit=30000):
     return out
 
 
+def loose_unravel(k):
+    """what `unravel_key` keeps of a malformed key: the str members, flattened"""
+    if isinstance(k, str):
+        return (k,)
+    if isinstance(k, (tuple, list)):
+        out = ()
+        for x in k:
+            out += loose_unravel(x)
+        return out
+    return ()
+
+
+def bad_key_nt_hazard(d, op):
+    keys = []
+    if op[0] in ("set", "del", "pop", "setdefault"):
+        keys = [op[1]]
+    elif op[0] == "rename":
+        keys = [op[1], op[2]]
+    elif op[0] == "update":
+        keys = [k for k, _ in op[1]]
+    elif op[0] in ("select", "exclude"):
+        keys = list(op[1])
+    for k in keys:
+        p = loose_unravel(k)
+        if p and (O.o_through_nt(d, p) or (O.o_get(d, p) is not O.MISSING and not isinstance(O.o_get(d, p), dict) and O.o_get(d, p)[0] == "n" and False)):
+            return True
+    return False
+
+
 # --------------------------------------------------------------------------- one history
 def gen_probes(rng, d):
     ps = list(O.CORE)
@@ -265,9 +294,12 @@ def run_history(run, rng, hid, maxlen, steps_out):
     n = rng.randint(1, maxlen)
     hist = []
     for stepno in range(n):
-        op = O.gen_op(rng, ids, [p for p, _ in O.o_paths(d)])
+        malformed = rng.random() < 0.03
+        op = (O.gen_bad_op if malformed else O.gen_op)(rng, ids, [p for p, _ in O.o_paths(d)])
         pre = O.skel_of(td)
-        if nt_hazard(d, op):
+        if malformed and bad_key_nt_hazard(d, op):
+            continue      # unravel_key drops the invalid members: what is left may run through a NonTensorData (outside the model)
+        if not malformed and nt_hazard(d, op):
             # extended domain: executed on a copy, judged by the oracle only
             run.count("ops.extended", "nt-through:" + op[0])
             td2 = O.build_impl(pre)
@@ -290,7 +322,7 @@ def run_history(run, rng, hid, maxlen, steps_out):
                             break
             continue
         hist.append(op)
-        R = O.apply_oracle(d, op)
+        R = None if malformed else O.apply_oracle(d, op)
         case = {"history": hid, "step": stepno, "pre": pre, "op": op}
         try:
             out, res = O.apply_impl(td, op)
@@ -307,9 +339,9 @@ def run_history(run, rng, hid, maxlen, steps_out):
         run.case(json.dumps([pre, op]), nontrivial=True)
         run.count("ops", op[0])
         run.count("outcome", iout[0] + (":" + iout[1] if iout[0] == "err" else ""))
-        run.count("verdict", R["verdict"])
+        run.count("verdict", "malformed-key" if malformed else R["verdict"])
         steps_out.append({"case": case, "pre": pre, "op": op, "probes": probes, "impl": [post, iout, impl_obs_canon(obs)]})
-        good = check_step(run, "history", case, pre, op, R, out, post, res)
+        good = True if malformed else check_step(run, "history", case, pre, op, R, out, post, res)
         # observations are judged against the dict that corresponds to the implementation's state
         dd = O.o_build(post)
         if good:
@@ -391,8 +423,9 @@ def main():
         replay_file(run, str(f), quiet=True)
 
     # ---- 1. key canonicalisation: spellings of universe paths, model (C++ transcription) vs the library
-    import tensordict.utils as U
-    from tensordict import _C
+    import cxx_build
+    from tensordict import _C as builtC
+    _C = cxx_build.build_and_load()       # csrc/*.cpp of the working tree, recompiled when it changed (cached by hash)
     sp_cases = []
     for p in O.UNIVERSE:
         for _ in range(12 if run.tier == "quick" else 60):
@@ -405,6 +438,8 @@ def main():
         mk = "err" if mk == "err" else (O.unhex(mk[1]) if mk[0] == "s" else tuple(O.unhex(x) for x in mk[1:]))
         it = tuple(_C._unravel_key_to_tuple(sp))
         ik = _C.unravel_key(sp)
+        if tuple(builtC._unravel_key_to_tuple(sp)) != it or builtC.unravel_key(sp) != ik:
+            raise Infra("tensordict/_C*.so is stale w.r.t. tensordict/csrc (rebuild the extension)")
         run.case(("spell", repr(sp)), nontrivial=not isinstance(sp, str))
         run.corr("unravel_tuple", repr(sp), list(it), list(mt))
         run.corr("unravel_key", repr(sp), ik if isinstance(ik, str) else list(ik), mk if isinstance(mk, str) else list(mk))
@@ -416,7 +451,7 @@ def main():
     # ---- 2. histories
     nh, maxlen = (400, 40) if run.tier == "quick" else (4000, 40)
     steps = []
-    with time_limit(80 if run.tier == "quick" else 800):
+    with time_limit(300 if run.tier == "quick" else 2400):
         for hid in range(nh):
             run_history(run, rng, hid, maxlen, steps)
     reqs = []
